@@ -20,11 +20,15 @@ pub enum Kind {
     Sized(u64),
     /// POST over HTTP/1.0 without framing header (the library still frames it chunked)
     DefaultChunkedHttp10,
+    /// POST with explicit `host` and `transfer-encoding: chunked` headers (nothing left for the library to add)
+    ExplicitTeAndHost,
+    /// PUT with explicit `host` and `content-length: n`
+    SizedAndHost(u64),
 }
 
 impl Kind {
     pub fn is_chunked(self) -> bool {
-        !matches!(self, Kind::Sized(_))
+        !matches!(self, Kind::Sized(_) | Kind::SizedAndHost(_))
     }
 }
 
@@ -73,6 +77,8 @@ impl Sender {
             Kind::DespiteGet => b.method(Method::GET),
             Kind::Sized(n) => b.method(Method::PUT).header("content-length", n.to_string()),
             Kind::DefaultChunkedHttp10 => b.method(Method::POST).version(ureq_proto::http::Version::HTTP_10),
+            Kind::ExplicitTeAndHost => b.method(Method::POST).header("Host", "explicit.test").header("Transfer-Encoding", "chunked"),
+            Kind::SizedAndHost(n) => b.method(Method::PUT).header("host", "explicit.test").header("content-length", n.to_string()),
         };
         let req = b.body(()).map_err(|e| e.to_string())?;
         let mut head = [0u8; 512];
